@@ -54,6 +54,14 @@ FIRST_MISSED = {
     'C16_p1': 'missed at first (GMRES restarts with |b| != 1 not checked per cycle); gmresr stream + KrylovGmres model added',
     'C18_p2': 'missed at first (start_time never drawn; no checkpoint at evolved_time == 0)',
 }
+# kept changes that can no longer be applied to the current tree because a later `fix:` commit rewrote the lines they
+# touch (they were confirmed and detected on the tree they were written for; see meta.json)
+RETIRED = {
+    'C17_m1': 'retired: fix c7f569c (F17.7) rewrote Hdf5Loader.load_tuple - the temporary list is no longer memorised, so the '
+              'changed line does not exist any more and the mutation has no equivalent on the current tree',
+    'C18_m2': 'retired: fix 3811351 (F18.1-3, sweep_stats kept in the resume data) changed DMRGEngine.reset_stats and the '
+              'contents of results[sweep_stats] after a resume, which demo.py relied on; the patch context no longer matches',
+}
 for name in sorted(os.listdir(src)):
     d = os.path.join(src, name)
     ej = os.path.join(d, 'eval.json')
@@ -71,7 +79,8 @@ for name in sorted(os.listdir(src)):
     dst = os.path.join(V, 'seeded', name)
     os.makedirs(dst, exist_ok=True)
     for f in ('patch.diff', 'demo.py'):
-        shutil.copy(os.path.join(d, f), dst)
+        if not os.path.exists(os.path.join(dst, f)):   # (tools/seeded_recheck.py may have refreshed a kept patch)
+            shutil.copy(os.path.join(d, f), dst)
     meta = json.load(open(os.path.join(d, 'meta.json')))
     meta['confirmed_by_me'] = {
         'how': 'tools/seeded_eval.py on a scratch copy of /repo (never /repo itself): demo.py exit 0 unpatched / non-zero patched; '
@@ -82,11 +91,12 @@ for name in sorted(os.listdir(src)):
         'check_replay_kind': e.get('replay_kind'), 'check_replay_what': e.get('replay_what'), 'evaluated_at': e.get('at'),
         'note': e.get('note', '') or FIRST_MISSED.get(name, ''),
         'missed_at_first_evaluation': bool(first_missed or name in FIRST_MISSED),
+        'status': RETIRED.get(name, 'applies to the current tree'),
     }
     json.dump(meta, open(os.path.join(dst, 'meta.json'), 'w'), indent=1)
     rows.append((name, meta.get('property'), bool(e.get('detected')), bool(e.get('with_failing_input')),
                  (meta.get('what_breaks') or '')[:110].replace('\n', ' ').replace('|', '/'),
-                 (e.get('replay_what') or '')[:110].replace('\n', ' ').replace('|', '/'), e.get('note', '') or FIRST_MISSED.get(name, '')))
+                 (e.get('replay_what') or '')[:110].replace('\n', ' ').replace('|', '/'), (RETIRED.get(name, '') + ' ' if name in RETIRED else '') + (e.get('note', '') or FIRST_MISSED.get(name, ''))))
 with open(os.path.join(V, 'seeded', 'SUMMARY.md'), 'w') as f:
     f.write('# Seeded changes (written by independent sub-agents from the property text only) and what the checks do with them\n\n')
     f.write('| id | property | detected | with failing input | what the change breaks | what the check reported | note |\n|---|---|---|---|---|---|---|\n')
